@@ -176,6 +176,15 @@ def exhaustive_merge_cases(tier):
 def exhaustive_triple_cases(tier):
     flags = [(False, False), (False, True), (True, False), (True, True)]
     vals = [1, [1], [2, 1], {1}, {"k": 1}] if tier == "quick" else [1, "s", [1], [2, 1], (1, 3), {1}, {2}, {"k": 1}, {"m": [1]}]
+    # W: the witnesses of the Lean associativity theorems, replayed on the real code.
+    #  errsite — both bracketings raise TypeError, at different raise sites (merge_assoc_error_site_differs): the
+    #            messages differ ("…for key y." mapping vs "…for key x." sequence); recorded in the case label only,
+    #            the property does not constrain the message;
+    #  bridge  — True == 1 in keys and list elements, tuples merged into a list: both give {True: [True, 2, 3]}.
+    yield {"kind": "merge3", "ml": True, "ms": False, "a": J({"y": {}, "x": 1}), "b": J({"x": 1}),
+           "c": J({"x": [], "y": 1}), "_meta": {"scope": "W-errsite"}}
+    yield {"kind": "merge3", "ml": True, "ms": True, "a": J({True: [True]}), "b": J({1: [1, 2]}),
+           "c": J({True: (2, True, 3)}), "_meta": {"scope": "W-bridge"}}
     for ml, ms in flags:
         for u, v, w in itertools.product(vals, repeat=3):
             yield {"kind": "merge3", "ml": ml, "ms": ms, "a": J({"x": u, "p": 1}), "b": J({"q": 2, "x": v}),
@@ -483,9 +492,10 @@ def _merge_once(ds, a, b, ml, ms, use_defaults=False):
     """one real call with deep snapshots of both arguments before and after"""
     sa, sb = enc(a), enc(b)
     if use_defaults:
-        out, _ = _call(lambda: ds.merge_data_trees(a, b))
+        out, exc = _call(lambda: ds.merge_data_trees(a, b))
     else:
-        out, _ = _call(lambda: ds.merge_data_trees(a, b, ml, ms))
+        out, exc = _call(lambda: ds.merge_data_trees(a, b, ml, ms))
+    _STATE["last_msg"] = None if exc is None else str(exc)
     res = out.get("ok")
     mutated = []
     if enc(a) != sa:
@@ -512,21 +522,25 @@ def run_merge3(case):
     ds, _, _ = _vinegar()
     ml, ms = case["ml"], case["ms"]
     a, b, c = dec(case["a"]), dec(case["b"]), dec(case["c"])
-    obs = {"mutated": []}
+    obs = {"mutated": [], "msg": {}}       # msg: exception text per bracketing (an observation, never judged)
     ab_out, ab, m = _merge_once(ds, a, b, ml, ms)
     obs["mutated"] += ["ab:" + x for x in m]
     obs["ab"] = ab_out
+    obs["msg"]["left"] = _STATE["last_msg"]
     obs["left"] = None
     if "ok" in ab_out:
         obs["left"], _, m = _merge_once(ds, ab, c, ml, ms)
         obs["mutated"] += ["left:" + x for x in m]
+        obs["msg"]["left"] = _STATE["last_msg"]
     bc_out, bc, m = _merge_once(ds, b, c, ml, ms)
     obs["mutated"] += ["bc:" + x for x in m]
     obs["bc"] = bc_out
+    obs["msg"]["right"] = _STATE["last_msg"]
     obs["right"] = None
     if "ok" in bc_out:
         obs["right"], _, m = _merge_once(ds, a, bc, ml, ms)
         obs["mutated"] += ["right:" + x for x in m]
+        obs["msg"]["right"] = _STATE["last_msg"]
     return obs
 
 
